@@ -67,6 +67,14 @@ pub enum Sel {
     /// builder O: switch the I/O mode (phyio.rs) for the following functions: `-> Result<_, RadioError>`
     /// functions become actions of `Rt.Phy.IoM` (SPI transfers as a value)
     IoMode(bool),
+    /// builder N: like `ExternFn`, with the names of its `&mut` parameters (state passing: the Lean
+    /// function returns `ret × their new values`) and whether the Lean function is `Option`-valued
+    ExternFnX(&'static str, &'static str, &'static [(&'static str, &'static str)], &'static str, &'static [&'static str], bool),
+    /// builder N: a tuple struct with one field (`struct T(u8)`): structure with the field `_0`
+    Newtype(&'static str),
+    /// builder N: a constant the unit keeps abstract (an associated constant of a generic parameter,
+    /// `R::NUM_JOIN_CHANNELS`): (rust path, rust type, Lean term given by a `Raw` item)
+    ExternConst(&'static str, &'static str, &'static str),
 }
 
 pub struct Unit {
@@ -344,6 +352,9 @@ fn translate_unit(repo: &Path, u: &Unit, reg: &mut Registry) -> Res<String> {
                 let tr = FnTr { reg, self_ty: Some(name.to_string()), ret: Ty::Unit, counter: 0, fn_prefix: String::new(), local_fns: HashMap::new(), extra_defs: vec![], muts: vec![], tparams: HashMap::new() };
                 let mut fields = vec![];
                 for f in &s.fields {
+                    if tr::cfg_disabled(&f.attrs) {
+                        continue;
+                    }
                     let fname = f.ident.as_ref().ok_or("tuple struct")?.to_string();
                     fields.push((fname, tr.ty(&f.ty)?));
                 }
@@ -498,6 +509,7 @@ fn translate_unit(repo: &Path, u: &Unit, reg: &mut Registry) -> Res<String> {
                 let mut units = vec![];
                 let mut datas = vec![];
                 let mut lines = vec![];
+                let mut named: Vec<(String, Vec<String>)> = vec![];
                 for v in &e.variants {
                     if tr::cfg_disabled(&v.attrs) {
                         continue;
@@ -513,7 +525,14 @@ fn translate_unit(repo: &Path, u: &Unit, reg: &mut Registry) -> Res<String> {
                             lines.push(format!("  | {} {}", lean_ident(&vn), tys.iter().enumerate().map(|(k, t)| format!("(a{} : {})", k, t.lean())).collect::<Vec<_>>().join(" ")));
                             datas.push((vn, tys));
                         }
-                        Fields::Named(_) => return Err(format!("enum {} variant {} has named fields", name, vn)),
+                        Fields::Named(fs) => {
+                            // builder N: struct-like variant: constructor arguments in declaration order
+                            let tys = fs.named.iter().map(|f| tr.ty(&f.ty)).collect::<Res<Vec<_>>>().map_err(|e| format!("enum {} variant {}: {}", name, vn, e))?;
+                            let names: Vec<String> = fs.named.iter().map(|f| f.ident.as_ref().unwrap().to_string()).collect();
+                            lines.push(format!("  | {} {}", lean_ident(&vn), names.iter().zip(tys.iter()).map(|(n, t)| format!("({} : {})", lean_ident(n), t.lean())).collect::<Vec<_>>().join(" ")));
+                            named.push((format!("{}::{}", name, vn), names));
+                            datas.push((vn, tys));
+                        }
                     }
                 }
                 writeln!(out, "inductive {} where", name).unwrap();
@@ -523,6 +542,9 @@ fn translate_unit(repo: &Path, u: &Unit, reg: &mut Registry) -> Res<String> {
                 writeln!(out, "  deriving DecidableEq, Repr\n").unwrap();
                 reg.enums.insert(name.to_string(), units);
                 reg.enum_data.insert(name.to_string(), datas);
+                for (k, v) in named {
+                    reg.enum_named.insert(k, v);
+                }
             }
             Sel::ExternUnit(m) => {
                 let u2 = units::units().into_iter().find(|x| x.module == *m).ok_or(format!("ExternUnit: no unit {}", m))?;
@@ -559,6 +581,40 @@ fn translate_unit(repo: &Path, u: &Unit, reg: &mut Registry) -> Res<String> {
                 let rty: Type = syn::parse_str(ret).map_err(|e| format!("ExternFn {}: {}", key, e))?;
                 let r = tr.ty(&rty)?;
                 reg.fns.insert(key.to_string(), FnSig { lean: lean.to_string(), params: ps, ret: r, fallible: false, muts: vec![] });
+            }
+            Sel::ExternFnX(key, lean, params, ret, muts, fallible) => {
+                let tr = FnTr { reg, self_ty: None, ret: Ty::Unit, counter: 0, fn_prefix: String::new(), local_fns: HashMap::new(), extra_defs: vec![], muts: vec![], tparams: HashMap::new() };
+                let mut ps = vec![];
+                for (n, t) in params.iter() {
+                    let ty: Type = syn::parse_str(t).map_err(|e| format!("ExternFnX {}: {}", key, e))?;
+                    ps.push((n.to_string(), tr.ty(&ty)?));
+                }
+                let r = if ret.is_empty() {
+                    Ty::Unit
+                } else {
+                    let rty: Type = syn::parse_str(ret).map_err(|e| format!("ExternFnX {}: {}", key, e))?;
+                    tr.ty(&rty)?
+                };
+                reg.fns.insert(key.to_string(), FnSig { lean: lean.to_string(), params: ps, ret: r, fallible: *fallible, muts: muts.iter().map(|m| m.to_string()).collect() });
+            }
+            Sel::ExternConst(key, ty, lean) => {
+                let t = int_ty(ty).map(Ty::Int).ok_or(format!("ExternConst {}: not an integer type", key))?;
+                reg.consts.insert(key.to_string(), (t, lean.to_string()));
+            }
+            Sel::Newtype(name) => {
+                let it = find_in(&|it| matches!(it, Item::Struct(s) if s.ident == name)).ok_or(format!("struct {} not found", name))?;
+                let s = match it {
+                    Item::Struct(s) => s,
+                    _ => unreachable!(),
+                };
+                let tr = FnTr { reg, self_ty: Some(name.to_string()), ret: Ty::Unit, counter: 0, fn_prefix: String::new(), local_fns: HashMap::new(), extra_defs: vec![], muts: vec![], tparams: HashMap::new() };
+                let fty = match &s.fields {
+                    Fields::Unnamed(fu) if fu.unnamed.len() == 1 => tr.ty(&fu.unnamed[0].ty)?,
+                    _ => return Err(format!("{} is not a one-field tuple struct", name)),
+                };
+                writeln!(out, "/-- the newtype `{}` -/", name).unwrap();
+                writeln!(out, "structure {} where\n  _0 : {}\n  deriving DecidableEq, Repr\n", name, fty.lean()).unwrap();
+                reg.structs.insert(name.to_string(), vec![("0".to_string(), fty)]);
             }
             Sel::ConstAs(file_substr, rust_name, lean_name) => {
                 let idx = file_names.iter().position(|n| n.contains(file_substr)).ok_or(format!("no file matching {}", file_substr))?;
@@ -619,6 +675,14 @@ fn translate_unit(repo: &Path, u: &Unit, reg: &mut Registry) -> Res<String> {
     } else {
         let full: Vec<String> = hs.iter().map(|h| format!("{}.{}", u.module, h)).collect();
         writeln!(out, "macro \"gen_unfold_helpers_{}\" : tactic => `(tactic| simp only [{}])", unit_name, full.join(", ")).unwrap();
+    }
+    // builder N: the same for the helper METHODS only (methods of modelled structs translated on demand), for
+    // proofs that keep the free helper functions folded
+    let ms: Vec<String> = hs.iter().filter(|h| h.split_once('.').map(|(t, _)| reg.structs.contains_key(t)).unwrap_or(false)).map(|h| format!("{}.{}", u.module, h)).collect();
+    if ms.is_empty() {
+        writeln!(out, "macro \"gen_unfold_methods_{}\" : tactic => `(tactic| skip)", unit_name).unwrap();
+    } else {
+        writeln!(out, "macro \"gen_unfold_methods_{}\" : tactic => `(tactic| simp only [{}])", unit_name, ms.join(", ")).unwrap();
     }
     Ok(out)
 }
